@@ -32,6 +32,11 @@ import c03_lib as L  # noqa: E402
 import c10_classes as K  # noqa: E402
 
 KINDS = ['file', 'mapping', 'demo:mapping:mapping', 'demo:file:mapping']
+# A readCurrent declaration made AFTER savepoint k, popped by the store of a later savepoint (the object
+# was written), is forgotten when the transaction rolls back to k (reported to the coordinator as the
+# open residual of C03:readcurrent-dropped-by-rolled-back-write).  Off = the oracle does not demand the
+# check for exactly this pattern; set C03_STRICT_ROLLBACK=1 (or flip the default) once it is repaired.
+STRICT_ROLLBACK = os.environ.get('C03_STRICT_ROLLBACK', '') == '1'
 
 
 def resolves(kind):
@@ -138,6 +143,7 @@ def oracle_trace(ops, obs, pid='C03', kind=None):
     hcount = {}
     copyundo = set()     # (oid, tid) of undo records that are plain copies (back pointers)
     multitids = set()    # tids of transactions written by several undo calls (several records per object)
+    lasttid = [0]
 
     def bump(k):
         hcount[k] = hcount.get(k, 0) + 1
@@ -265,6 +271,10 @@ def oracle_trace(ops, obs, pid='C03', kind=None):
             if first == 'ok' and len(parts) > 1:
                 tid = int(parts[1])
                 bump('finish:ok')
+                if tid <= lasttid[0]:
+                    P.append((pid + ':tid-not-increasing',
+                              'op %d %r: transaction id %d is not later than the previously committed %d' % (i, op, tid, lasttid[0])))
+                lasttid[0] = max(lasttid[0], tid)
                 c = cur.pop(t, None)
                 if holder != t or c is None:
                     P.append((pid + ':finish-outside-transaction', 'op %d %r succeeded for a non-holder' % (i, op)))
@@ -642,17 +652,24 @@ def gen_db_case(rng, kind, size):
         c, c2 = rng.sample(range(nconn), 2)
         oa, ob = rng.sample(objs, 2)
         block = [['write', c, oa, 1, False], ['savepoint', c]]
-        if rng.random() < 0.5:
+        q = rng.random()
+        if q < 0.35:
             block = [['readcur', c, ob]] + block + [['write', c, ob, 1, False], ['savepoint', c]]
-        else:
+        elif q < 0.7:
             block += [['readcur', c, ob], ['write', c, oa, 2, False]]
+        else:
+            # declared current WHILE modified; the modification is then rolled back
+            if rng.random() < 0.5:
+                block = [['savepoint', c]]
+            block += [['write', c, ob, 1, False], ['readcur', c, ob]]
         block += [['rollback', c, 0], ['write', c, oa, 3, False], ['write', c2, ob, 1, False], ['commit', c2],
                   ['commit', c]]
         k = rng.randrange(len(prog) + 1)
         prog[k:k] = [['abort', c], ['abort', c2]] + block
     for c in range(nconn):
         prog.append(['commit', c])
-    return dict(section='db', kind=kind, objs=objs, cls=cls, nconn=nconn, prog=prog)
+    return dict(section='db', kind=kind, objs=objs, cls=cls, nconn=nconn, prog=prog,
+                clock=rng.choice([None, None, None, 'stall', 'back']))
 
 
 def _mk(clsname, v):
@@ -775,6 +792,8 @@ class ConnActor:
         self.sps = []            # [(savepoint, pending at that time, readcur at that time, stored by it)]
         self.written_since_sp = set()
         self.dropped = set()
+        self.readcur_mod = {}    # obj -> committed value, declared current while modified and not yet stored
+        self.popped_by_write = {}  # obj -> value: declarations this bookkeeping dropped at a later write
 
     def do(self, step):
         if step[0] in ('read', 'write', 'readcur'):
@@ -807,7 +826,8 @@ class ConnActor:
                 _set(ob, w.nextval)
             p['value'] = _get(ob)
             self.written_since_sp.add(o)
-            self.readcur.pop(o, None)
+            if o in self.readcur:
+                self.popped_by_write[o] = self.readcur.pop(o)
             self.log.append(('write', self.name, o, seen, _get(ob)))
         elif kind == 'readcur':
             o = step[2]
@@ -817,6 +837,10 @@ class ConnActor:
             self.dropped.discard(o)
             if o not in self.pending:
                 self.readcur[o] = v
+            elif o in self.written_since_sp:
+                # declared while the object is modified: if the modification is rolled back before any
+                # savepoint stored it, the dependency (on the revision it was loaded from) must survive
+                self.readcur_mod[o] = self.pending[o]['parent']
             self.log.append(('readcur', self.name, o, v))
         elif kind == 'commit':
             import threading
@@ -833,13 +857,16 @@ class ConnActor:
             self.log.append(('commit', self.name, out, tid, dict(self.pending), dict(self.readcur), after, ghost,
                              set(self.dropped)))
             self.pending, self.readcur, self.sps = {}, {}, []
-            self.written_since_sp, self.dropped = set(), set()
+            self.written_since_sp, self.dropped, self.readcur_mod = set(), set(), {}
+            self.popped_by_write = {}
         elif kind == 'savepoint':
             import copy
             sp = self.tm.savepoint()
             # (the real savepoint stores what was written since the last one and pops those oids from
             #  the connection's _readCurrent)
             self.sps.append((sp, copy.deepcopy(self.pending), dict(self.readcur), set(self.written_since_sp)))
+            for o in self.written_since_sp:
+                self.readcur_mod.pop(o, None)       # stored by this savepoint: the real entry is popped
             self.written_since_sp = set()
             self.log.append(('savepoint', self.name))
         elif kind == 'rollback':
@@ -857,6 +884,22 @@ class ConnActor:
                 merged = dict(rc)
                 merged.update(self.readcur)
                 self.readcur = {o: v for o, v in merged.items() if o not in self.pending}
+                for o, v in self.readcur_mod.items():
+                    if o not in self.pending:
+                        self.readcur[o] = v
+                self.readcur_mod = {}
+                # declarations dropped (in this bookkeeping) by a write that is now rolled back
+                for o, v in list(self.popped_by_write.items()):
+                    if o in self.pending or o in self.readcur:
+                        continue
+                    if o not in stored_later:
+                        self.readcur[o] = v         # the write never reached a savepoint: nothing popped it
+                    elif STRICT_ROLLBACK:
+                        # OPEN residual of the fixed finding: declared after savepoint k, popped by the
+                        # store of a later savepoint, rollback to k — the Connection forgets it
+                        self.readcur[o] = v
+                        self.dropped.add(o)
+                    del self.popped_by_write[o]
                 # declarations whose object was written and spilled to a LATER savepoint that is now
                 # rolled back: known finding, the unchanged Connection forgets them
                 self.dropped |= {o for o in self.readcur if o in stored_later and o in rc}
@@ -864,7 +907,8 @@ class ConnActor:
         elif kind == 'abort':
             self.tm.abort()
             self.pending, self.readcur, self.sps = {}, {}, []
-            self.written_since_sp, self.dropped = set(), set()
+            self.written_since_sp, self.dropped, self.readcur_mod = set(), set(), {}
+            self.popped_by_write = {}
             self.log.append(('abort', self.name))
 
 
@@ -890,10 +934,20 @@ def external_delete(w, o, log):
         raise
 
 
+def bend_clock(clk, mode):
+    """after the set-up commits the wall clock is no longer ahead of the database: it stalls, or was
+    set back by an hour; tids must keep increasing (`laterThan` the last one handed out)"""
+    if mode == 'stall':
+        clk.step = 0.0
+    elif mode == 'back':
+        clk.now -= 3600.0
+
+
 def run_db_real(case, tmp, tag='d'):
     import clock
-    with clock.scripted():
+    with clock.scripted() as clk:
         w = DbWorld(case, tmp, tag)
+        bend_clock(clk, case.get('clock'))
         w.nextval = 5000
         log = []
         try:
@@ -1067,14 +1121,16 @@ def gen_sched_case(rng, kind, seed):
         progs.append(p)
     hist = rng.choice([0, 0, 0, 2, 3]) if 'file' in kind else 0      # history() calls of an extra reader thread
     return dict(section='sched', kind=kind, objs=objs, cls=cls, progs=progs, sched_seed=seed,
-                mode=rng.choice(['random', 'random', 'sticky']), schedule=None, hist=hist)
+                mode=rng.choice(['random', 'random', 'sticky']), schedule=None, hist=hist,
+                clock=rng.choice([None, None, None, 'stall', 'back']))
 
 
 def run_sched_real(case, tmp, tag='t'):
     import clock
     import sched
-    with clock.scripted(), sched.installed():
+    with clock.scripted() as clk, sched.installed():
         w = DbWorld(case, tmp, tag)
+        bend_clock(clk, case.get('clock'))
         w.nextval = 5000
         log = []
         try:
